@@ -40,10 +40,20 @@ def confirm(src, sid, prop):
         orig = "/tmp/seedeval_%s.orig" % sid
         shutil.copy(os.path.join(tdir, "debug", "rapidquilt"), orig)
         rc, out = sh("git apply %s" % os.path.join(src, "patch.diff"), cwd=wt)
-        res["ran"].append("git apply patch.diff -> %d" % rc)
+        rebased = False
+        if rc:
+            # the patch was written against an earlier commit: three-way merge onto HEAD, keep the rebased diff
+            rc, out = sh("git apply --3way %s" % os.path.join(src, "patch.diff"), cwd=wt)
+            rebased = True
+        res["ran"].append("git apply%s patch.diff -> %d" % (" --3way" if rebased else "", rc))
         if rc:
             print("patch does not apply to HEAD:\n" + out)
             return 1
+        if rebased:
+            sh("git reset -q", cwd=wt)
+            rc2, diff = sh("git diff", cwd=wt)
+            with open(os.path.join(src, "patch.rebased.diff"), "w") as f:
+                f.write(diff)
         rc, out = sh("cargo build --offline", cwd=wt)
         res["ran"].append("cargo build --offline -> %d" % rc)
         if rc:
@@ -58,8 +68,8 @@ def confirm(src, sid, prop):
         mut = os.path.join(tdir, "debug", "rapidquilt")
         demo = os.path.join(src, "demo.sh")
         if os.path.exists(demo):
-            r1, o1 = sh(["sh", demo, orig], timeout=600)
-            r2, o2 = sh(["sh", demo, mut], timeout=600)
+            r1, o1 = sh(["bash", demo, orig], timeout=600)
+            r2, o2 = sh(["bash", demo, mut], timeout=600)
             res["ran"].append("demo.sh <orig> -> %d ; demo.sh <mutant> -> %d" % (r1, r2))
             if not (r1 == 0 and r2 != 0):
                 print("demo does not discriminate: orig=%d mutant=%d\n%s\n%s" % (r1, r2, o1[-800:], o2[-800:]))
@@ -72,6 +82,9 @@ def confirm(src, sid, prop):
         for f in os.listdir(src):
             if f in ("patch.diff", "demo.sh", "demo_test.rs", "README.md"):
                 shutil.copy(os.path.join(src, f), os.path.join(dst, f))
+        if os.path.exists(os.path.join(src, "patch.rebased.diff")) and rebased:
+            shutil.copy(os.path.join(src, "patch.diff"), os.path.join(dst, "patch.original.diff"))
+            shutil.copy(os.path.join(src, "patch.rebased.diff"), os.path.join(dst, "patch.diff"))
         meta_p = os.path.join(dst, "meta.json")
         meta = json.load(open(meta_p)) if os.path.exists(meta_p) else {}
         meta.update({"property": prop, "seed": sid, "needs_to_manifest": open(os.path.join(src, "README.md")).read()[:1500],
